@@ -54,8 +54,8 @@ RULE = ("cases = (source topology, transform sequence, edit block) drawn from a 
         "thorough) followed by edits on one side; 'subsets' cases enumerate ALL atom subsets of a small topology; a "
         "case is non-trivial when at least one monitor decided; distinct = distinct case descriptors")
 WORKERS = {"quick": 8, "thorough": 16}
-BUDGET = {"quick": 60, "thorough": 900}
-NCASES = {"quick": 3000, "thorough": 100000}
+BUDGET = {"quick": 150, "thorough": 900}
+NCASES = {"quick": 3000, "thorough": 60000}
 MAXLEN = {"quick": 4, "thorough": 10}
 FLOORS = {"quick": {"fp.copy": 130, "fp.copy.copy": 130, "fp.deepcopy": 130, "fp.pickle": 130, "fp.subset": 700, "fp.join": 200,
                     "fp.dataframe": 130, "fp.hdf5": 130, "fp.pdb": 120, "pdb.text": 140, "fp.traj.slice": 120,
@@ -93,7 +93,7 @@ def gen_cases(tier, seed):
         if u < 0.04:
             yield dict(i=i, seed=cs, kind="real", src=REAL[int(rng.integers(len(REAL)))], length=int(rng.integers(1, 4)))
         elif u < (0.07 if tier == "quick" else 0.10):
-            yield dict(i=i, seed=cs, kind="subsets", n_atoms=int(rng.integers(1, 7 if tier == "quick" else 12)))
+            yield dict(i=i, seed=cs, kind="subsets", n_atoms=int(rng.integers(1, 7 if tier == "quick" else 11)))
         else:
             yield dict(i=i, seed=cs, kind="seq", n_atoms=int(rng.choice([1, 2, 3, 5, 8, 13, 21, 34, 55])),
                        rich=bool(rng.random() < 0.85), repair=bool(rng.random() < 0.7),
@@ -419,6 +419,13 @@ def _apply_op(run, op, k):
             fields = [f for f in M.ALL_FIELDS if f != "chains.chain_id"]
             eq_expected = True
         Fe = F
+        # the fingerprint treats NaN as "no serial"; a None that comes back as float NaN is reported on its own
+        if any(a[2] is None for a in F["atoms"]):
+            if any(isinstance(a.serial, float) and a.serial != a.serial for a in new.atoms):
+                run.viol("fp.dataframe", "dataframe:serial-None-becomes-NaN",
+                         "an atom without serial (None) comes back from to_dataframe/from_dataframe with serial = float NaN")
+            else:
+                ctx.ok("fp.dataframe.missing-serial")
     elif op == "hdf5":
         if n == 0:
             ctx.skip("fp.hdf5", "empty topology")
@@ -480,6 +487,9 @@ def _op_pdb(run, k):
     if any((not a[0]) or len(a[0]) > 4 or (a[0] != a[0].strip()) or a[1] is None for a in F["atoms"]) or \
             any(not r[0] for r in F["residues"]):
         ctx.skip("fp.pdb", "names outside what PDB columns can hold")
+        return None
+    if any(isinstance(a.serial, float) and a.serial != a.serial for a in cur.top.atoms):
+        ctx.skip("fp.pdb", "an atom serial is NaN (reported under dataframe:serial-None-becomes-NaN)")
         return None
     ter = bool(rng.random() < 0.7)
     single = len(F["chains"]) == 1
